@@ -87,9 +87,16 @@ func collectAddressFilters(q interface {
 			if isPartialAddress(v) {
 				needSegments = true
 			}
-		default:
-			// $in operator passes arrays — these are always exact addresses,
-			// not partial, so we skip them (no GIN index optimization possible).
+		case []any:
+			// $in operator passes arrays — these are always exact addresses, not
+			// partial. They must be collected too: canPushAddressFilterToLateral
+			// counts a $in on the address as an address branch of a $or, so a pushed
+			// filter that left them out would drop the accounts they name.
+			for _, item := range v {
+				if address, ok := item.(string); ok {
+					addresses = append(addresses, address)
+				}
+			}
 		}
 		return false
 	})
